@@ -194,4 +194,34 @@ theorem allRec_spec (w : Nat) (p : Nat → Nat → Bool) (cs : List (Nat × Nat)
   intro k hk
   simpa using allList_spec p _ 0 h k hk
 
+
+/-! ### gluing facts proved part by part (so that Lake can check the parts in parallel) -/
+
+theorem records_append (w : Nat) : ∀ (A B : List (Nat × Nat)), records w (A ++ B) = records w A ++ records w B := by
+  intro A; induction A with
+  | nil => intro B; rfl
+  | cons c cs ih => intro B; simp [records, ih]
+
+theorem records_length (w : Nat) : ∀ cs : List (Nat × Nat), (records w cs).length = (cs.map (·.1)).sum := by
+  intro cs; induction cs with
+  | nil => rfl
+  | cons c cs ih => simp [records, unpack_length, ih]
+
+theorem adjChunks_append (w : Nat) (p : Nat → Nat → Nat → Bool) (A B : List (Nat × Nat)) (i prev : Nat) :
+    adjChunks w p (A ++ B) i prev =
+      match adjChunks w p A i prev with
+      | none => none
+      | some last => adjChunks w p B (i + (records w A).length) last := by
+  simp only [adjChunks_eq, records_append, adjList_append]
+
+theorem allChunks_append (w : Nat) (p : Nat → Nat → Bool) (A B : List (Nat × Nat)) (i : Nat) :
+    allChunks w p (A ++ B) i = (allChunks w p A i && allChunks w p B (i + (records w A).length)) := by
+  simp only [allChunks_eq, records_append, allList_append]
+
+/-- the shifted predicate used by `adjRec` -/
+def adjP (p : Nat → Nat → Nat → Bool) : Nat → Nat → Nat → Bool := fun i a b => i == 0 || p (i - 1) a b
+
+theorem adjRec_def (w : Nat) (p : Nat → Nat → Nat → Bool) (cs : List (Nat × Nat)) :
+    adjRec w p cs = (adjChunks w (adjP p) cs 0 0).isSome := rfl
+
 end Tyme.Packed
